@@ -1,5 +1,5 @@
 (* C12 - non-vacuity examples (tests, not obligations) and small corollaries. *)
-From Coq Require Import ZArith List Bool Lia Arith.
+From Coq Require Import ZArith List Bool Lia Arith Permutation.
 From C12 Require Import Gen Model ProofsBase ProofsVec ProofsSeq ProofsAL ProofsHM1 ProofsHM2 ProofsHM3 ProofsHM4 ProofsHM5 ProofsHash ProofsSB ProofsDL.
 Import ListNotations.
 
@@ -51,3 +51,11 @@ Proof. split; [apply (dl_empty_wf Z 0%Z)|]. eexists; eexists. split; vm_compute;
 (* the witness of the former commit defect is now stopped (corpus/C12/sb_commit_over.txt) *)
 Example sb_commit_over_stopped : sb_step (BCommitOver 0 0) sb_empty = Trap TrapNoSpace.
 Proof. vm_compute. reflexivity. Qed.
+
+(* NaN keys: the token instance has keys that are not == to themselves, and they behave as the theorems say *)
+Example hm_nan_keys :
+  tok_eqb NAN_OFF NAN_OFF = false /\
+  exists m rs, hm_run Z Z 0%Z 0%Z tok_eqb tok_hash
+      [HSet Z Z NAN_OFF 1%Z; HSet Z Z NAN_OFF 2%Z; HSet Z Z 3%Z 4%Z; HPeek Z Z NAN_OFF; HErase Z Z NAN_OFF; HIterErase Z Z (fun k v => true)]
+      (hm_empty Z Z) = Ok (m, rs) /\ hm_abs Z Z m = [(NAN_OFF, 1%Z); (NAN_OFF, 2%Z)] /\ nth 3 rs (HUnit Z Z) = HOpt Z Z None.
+Proof. split; [vm_compute; reflexivity|]. eexists; eexists. split; [vm_compute; reflexivity|]. split; vm_compute; reflexivity. Qed.
